@@ -1698,3 +1698,65 @@ def pan10(ctx):
 def json_inst(t):
     c = t.get("callee") or {}
     return (c.get("inst") or "") + " " + " ".join(c.get("gargs") or [])
+
+
+# ---------------------------------------------------------------- PAN-11: no unbounded narrow-width multiplication
+
+NARROW = ("u8", "u16", "i8", "i16")
+PAN11_BOUNDED = {
+    ("asca::subrule::SubRule::concat_tone::{closure#1}", "Mul", "u16"):
+        "fold `acc * 10 + digit` over at most four decimal digits (FLW-6 decides that the melded digit vector has <= 4 entries): <= 9999",
+}
+
+
+def _operand_ty(b, a):
+    if a.get("ty"):
+        return a["ty"]
+    pl = a.get("pl")
+    if not pl:
+        return None
+    if not pl["p"]:
+        return b.local_ty(pl["l"])
+    last = pl["p"][-1]
+    return last.get("ty") if isinstance(last, dict) else None
+
+
+def pan11(ctx):
+    """Tones are u16 (<= 65535) and may have four digits each; joining two of them, scaling by powers of ten etc. does not
+    fit. Every multiplication / exponentiation at an 8- or 16-bit width in the library is listed with the bound that makes
+    it safe; a new one is an overflow panic (debug) or a silently wrapped tone (release) waiting for a large enough tone."""
+    r = RuleResult("PAN-11", "every multiplication / pow at an 8- or 16-bit width in the library is on operands with a recorded bound (tone arithmetic is done at u64 before it is cut back to four digits)", floor=1)
+    lib = ctx.lib
+    n = 0
+    for b in lib.bodies:
+        if b.in_test_mod() or not b.blocks or b.exp:
+            continue
+        sites = []
+        for bl in b.blocks:
+            if bl.get("cleanup"):
+                continue
+            for s in bl["s"]:
+                if s["k"] == "assign" and s["rv"].get("k") == "binop" and s["rv"]["op"] in ("MulWithOverflow", "Mul", "MulUnchecked") and not s.get("exp"):
+                    ty = _operand_ty(b, s["rv"]["a"]) or _operand_ty(b, s["rv"]["b"])
+                    if ty in NARROW:
+                        sites.append(("Mul", ty, s.get("loc")))
+            t = bl["t"]
+            if t["k"] == "call" and not t.get("exp"):
+                m = re.match(r"core::num::<impl (\w+)>::(pow|checked_pow|wrapping_pow|saturating_pow)$", callee_path(t) or "")
+                if m and m.group(1) in NARROW and m.group(2) == "pow":
+                    sites.append(("pow", m.group(1), t.get("loc")))
+        for op, ty, loc in sites:
+            n += 1
+            why = PAN11_BOUNDED.get((b.path, op, ty))
+            l2 = ":".join((loc or b.loc).split(":")[:2])
+            r.inst("%s: %s at %s — %s" % (b.path, op, ty, why or "no recorded bound"), l2, "ok" if why else "report")
+            if why:
+                r.exceptions.append("PAN-11 %s %s %s: %s" % (b.path, op, ty, why))
+            else:
+                r.report("PAN-11|%s|%s|%s" % (b.path, op, ty), l2, b.path,
+                         "%s at %s on values that are not known to be small: two four-digit tones joined (`51` ++ `3142`, up to 8 digits) exceed %s -- the call panics with 'attempt to multiply with overflow' (debug) or wraps to a wrong tone (release)"
+                         % ("a multiplication" if op == "Mul" else "an exponentiation", ty, ty))
+    r.analysed = {"narrow_mul_pow_sites": n}
+    if n == 0:
+        raise AnchorMissing("PAN-11: the digit fold of concat_tone (the one bounded u16 multiplication) was not found")
+    return r
